@@ -355,6 +355,33 @@ static void ds_case(uint64_t idx, void *ctx)
     mc_nontrivial();
 }
 
+/* ------------------------------------------------------------------ %dirscan on a directory whose spelling is nearly PATH_MAX long: directory + "/" + entry name crosses the limit */
+static const int DLP[] = { 3000, 3838, 3839, 3840, 3841, 4000, 4079, 4090, 4092, 4093, 4094, 4095 };
+#define NDLP ((int) (sizeof DLP / sizeof DLP[0]))
+static void dl_desc(uint64_t idx, void *ctx, char *b, size_t n) { (void) ctx; snprintf(b, n, "%%dirscan() of a directory spelled with %d characters (padded with /./) that holds one regular file with a name of 255 characters (PATH_MAX %d)", DLP[idx], PATH_MAX); }
+static void dl_case(uint64_t idx, void *ctx)
+{
+    int want = DLP[idx]; (void) ctx;
+    char dir[300], path[700], name[300]; const char *shape = want + 1 + 255 + 1 > PATH_MAX ? "directory and entry name together exceed PATH_MAX" : "directory and entry name fit in PATH_MAX"; mc_set_shape(shape);
+    snprintf(dir, sizeof dir, "%s/dl-%d-%d", scratch(), (int) getpid(), (int) idx); mkdir(dir, 0700);
+    memset(name, 'a', 255); name[255] = 0; snprintf(path, sizeof path, "%s/%s", dir, name); write_file(path, "", 0);
+    char *sp = malloc(8192); size_t o = (size_t) snprintf(sp, 8192, "%s", dir);
+    while ((int) o + 2 <= want) { sp[o++] = '/'; sp[o++] = '.'; } if ((int) o < want) { memmove(sp + 1, sp, o); sp[0] = '/'; o++; } sp[o] = 0;       /* a leading extra slash makes up an odd length */
+    names_once(); spifconf_init_subsystem();
+    char *b = malloc(CONFIG_BUFF); snprintf(b, CONFIG_BUFF, "[%%dirscan(%s)]", sp);
+    g_env_on = 1; g_allow_fork = 0;
+    char *r = (char *) spifconf_shell_expand((spif_charptr_t) b);
+    g_env_on = 0; g_allow_fork = 1;
+    if (r && strnlen(r, CONFIG_BUFF) >= CONFIG_BUFF) FAIL("builtin_dirscan", "model:too-long", shape, "result not terminated within the line buffer");
+    else if (r && (int) o + 1 + 255 + 1 <= PATH_MAX && (strlen(r) != 258 || r[1] != 'a')) FAIL("builtin_dirscan", "model:value", shape, "the one file of the directory is not listed: result has %zu characters", strlen(r));
+    uint64_t rl = r ? strlen(r) : 0;
+    free(b); free(sp);
+    spifconf_free_subsystem();
+    unlink(path); rmdir(dir);
+    mc_nontrivial();
+    mc_outcome(rl);
+}
+
 int main(int argc, char **argv)
 {
     mc_init("C11", argc, argv);
@@ -371,6 +398,7 @@ int main(int argc, char **argv)
     mc_e2_level("temp_file", 1, 64, t_case, t_desc, NULL);
     mc_e2_level("counters", 300, 301, c_case, c_desc, NULL);
     mc_e2_level("dirscan_limit", 1, 10, ds_case, ds_desc, NULL);
+    mc_e2_level("dirscan_long_path", PATH_MAX, NDLP, dl_case, dl_desc, NULL);
     { mc_sys sys = { "lifecycle", NLOPS, l_name, l_fresh, l_enabled, l_apply, NULL, l_canon, l_teardown, (int) mc_arg_int("lookahead", 1) }; mc_e1_run(&sys, (int) mc_arg_int("depth", mc_thorough() ? 9 : 7)); }
     return mc_finish();
 }
